@@ -1,5 +1,5 @@
 import EinxModel.Driver.Util
-import EinxModel.Optimize.Dag
+import EinxModel.Optimize.DagSem
 open Lean Einx.Driver
 
 /-! Driver kind `optdag` (C05): run the model of the real optimiser traversal (`Optimize/Dag.lean: optimizeDag`) on a
@@ -183,7 +183,10 @@ def handle (j : Json) : R Json := do
     let pats ← (← arrF j "patterns").mapM parsePattern
     let n ← natF j "max_passes"
     match optimizeDag pats n p with
-    | .ok (q, log) => pure (Json.mkObj [("prog", progJson q), ("changed", jArr (log.map Json.bool))])
+    | .ok (q, log) =>
+      -- `good_run`: the decidable side conditions of `Props/C05Dag.lean: optimizeDag_sound` hold for this run
+      pure (Json.mkObj [("prog", progJson q), ("changed", jArr (log.map Json.bool)), ("good_run", Json.bool (goodRun pats n p)),
+        ("wf_top", Json.bool p.wfTop), ("pure_lang", Json.bool p.pureLang), ("no_top_inline", Json.bool (noTopInline pats p))])
     | .error e => pure (errJson e)
   | k => throw s!"unknown kind {k}"
 
